@@ -56,6 +56,28 @@ func TestC06(t *testing.T) {
 		if mode > 2 {
 			faults = GenFaults(rt, signed, FaultOpts{Content: true, Delete: true, KindSwap: true, Links: true, MaxFaults: 6})
 		}
+		if mode > 2 && rapid.IntRange(0, 7).Draw(rt, "twins") == 0 {
+			// twin subtrees, one of them replaced by a symlink to the other (or to the parent): its
+			// entries seem to be there when looked up through the link
+			twin := func(root string, seed uint64) {
+				signed[root+"/x"] = &Entry{Kind: KFile, Data: Bytes(seed, 1000)}
+				signed[root+"/sub/y"] = &Entry{Kind: KFile, Data: Bytes(seed+1, 70000)}
+				signed[root+"/sub/emptydir"] = &Entry{Kind: KDir}
+				signed[root+"/l"] = &Entry{Kind: KLink, Dest: "x"}
+			}
+			same := rapid.Bool().Draw(rt, "twinsame")
+			twin("t1", 5)
+			if same {
+				twin("t2", 5)
+			} else {
+				twin("t2", 9)
+			}
+			signed.Normalize()
+			which := rapid.SampledFrom([]string{"t1", "t2", "t1/sub"}).Draw(rt, "twinwhich")
+			dest := map[string]string{"t1": "t2", "t2": "t1", "t1/sub": "../t2/sub"}[which]
+			faults = append([]Fault{{Kind: "tolink", Path: which, Dest: dest}}, faults...)
+			Ev.Probe("directory_replaced_by_symlink_to_twin_directory")
+		}
 		spec := drawSched(rt)
 		if rapid.Bool().Draw(rt, "starve") {
 			spec.Policy = 3
